@@ -1,13 +1,765 @@
-// Package c19 is the correspondence harness for property C19 (placeholder).
+// Package c19 is the correspondence harness for property C19: plugins connected through the
+// real stub call Stub.UpdateContainers with generated update lists concurrently with each other
+// and with runtime requests on a real Adaptation; the runtime's UpdateFn stamps entry/exit and
+// returns a scripted (failed, err); plugin request handlers stamp entry/exit. The Lean driver
+// validates the history against the adaptation-mutex model and evaluates pass-through,
+// exactly-once and mutual exclusion directly on the log. A never-started stub is called under
+// a deadline.
 package c19
 
 import (
+	"context"
+	"encoding/hex"
+	"encoding/json"
 	"errors"
+	"fmt"
+	"math/rand"
+	"os"
+	"path/filepath"
+	"runtime"
+	"sort"
+	"strconv"
+	"strings"
+	"sync"
+	"sync/atomic"
+	"time"
 
+	"github.com/containerd/nri/pkg/adaptation"
+	"github.com/containerd/nri/pkg/api"
+	"github.com/containerd/nri/pkg/stub"
+	"google.golang.org/grpc/codes"
+	"google.golang.org/grpc/status"
+	"google.golang.org/protobuf/proto"
+
+	"verifh/c08/rt"
 	"verifh/internal/hx"
 	"verifh/internal/lineio"
 )
 
+type ErrIn struct {
+	Plain bool   `json:"plain"` // errors.New(msg) (travels as status Unknown) vs status.Error(code, msg)
+	Code  int    `json:"code"`
+	Msg   string `json:"msg"`
+}
+
+type CallIn struct {
+	U      int      `json:"u"`      // call id
+	P      int      `json:"p"`      // calling plugin
+	G      int      `json:"g"`      // calling goroutine of that plugin
+	List   []string `json:"list"`   // the updates sent: hex of the deterministic wire encoding of each
+	Failed []string `json:"failed"` // scripted result of UpdateFn: failed list …
+	Err    *ErrIn   `json:"err"`    // … and error (null = success)
+}
+
+type In struct {
+	Kind     string   `json:"kind"` // upd | unstarted | stopped
+	Idx      int      `json:"idx"`
+	P        int      `json:"P"`         // plugins
+	U        int      `json:"U"`         // updating goroutines per plugin
+	G        int      `json:"G"`         // runtime request goroutines
+	R        int      `json:"R"`         // requests per request goroutine
+	Procs    int      `json:"procs"`     // GOMAXPROCS
+	DwellUs  int      `json:"dwell_us"`  // UpdateFn dwell
+	HDwellUs int      `json:"hdwell_us"` // plugin handler dwell
+	Early    bool     `json:"early"`     // plugins start updating as soon as their own Start returned
+	Listen   bool     `json:"listen"`    // kind unstarted: is a runtime listening on the socket?
+	Calls    []CallIn `json:"calls"`
+	Seed     int64    `json:"seed"`
+}
+
+type ErrObs struct {
+	Code int    `json:"code"` // status code as seen by the plugin; -1 = not a status error
+	Msg  string `json:"msg"`
+}
+
+type FnObs struct {
+	In    int64    `json:"in"`
+	Out   int64    `json:"out"`
+	Token int      `json:"token"` // call id read off the list; -1 empty list; -2 unrecognised
+	List  []string `json:"list"`
+}
+
+type CallObs struct {
+	U      int      `json:"u"`
+	S1     int64    `json:"s1"` // before the stub call
+	S2     int64    `json:"s2"` // after it returned (0 = never returned)
+	Done   bool     `json:"done"`
+	Failed []string `json:"failed"`
+	Err    *ErrObs  `json:"err"`
+}
+
+type HObs struct {
+	R   int   `json:"r"`
+	P   int   `json:"p"`
+	In  int64 `json:"in"`
+	Out int64 `json:"out"`
+}
+
+type Obs struct {
+	Status string    `json:"status"` // ok | blocked | error
+	Note   string    `json:"note"`
+	Fn     []FnObs   `json:"fn"`
+	Calls  []CallObs `json:"calls"`
+	H      []HObs    `json:"h"`
+	Result string    `json:"result"` // kinds unstarted/stopped: noservice | error | ok | blocked
+	WallMs int64     `json:"wall_ms"`
+}
+
+var detMarshal = proto.MarshalOptions{Deterministic: true}
+
+func enc(u *api.ContainerUpdate) string {
+	b, err := detMarshal.Marshal(u)
+	if err != nil {
+		return "!" + err.Error()
+	}
+	return hex.EncodeToString(b)
+}
+
+func encAll(us []*api.ContainerUpdate) []string {
+	out := make([]string, 0, len(us))
+	for _, u := range us {
+		out = append(out, enc(u))
+	}
+	return out
+}
+
+func dec(h string) (*api.ContainerUpdate, error) {
+	b, err := hex.DecodeString(h)
+	if err != nil {
+		return nil, err
+	}
+	u := &api.ContainerUpdate{}
+	if err := proto.Unmarshal(b, u); err != nil {
+		return nil, err
+	}
+	return u, nil
+}
+
+func decAll(hs []string) ([]*api.ContainerUpdate, error) {
+	out := make([]*api.ContainerUpdate, 0, len(hs))
+	for _, h := range hs {
+		u, err := dec(h)
+		if err != nil {
+			return nil, err
+		}
+		out = append(out, u)
+	}
+	return out, nil
+}
+
+func spin(us int) {
+	if us <= 0 {
+		return
+	}
+	t := time.Now()
+	for time.Since(t) < time.Duration(us)*time.Microsecond {
+	}
+}
+
+func token(us []*api.ContainerUpdate) int {
+	if len(us) == 0 {
+		return -1
+	}
+	id := us[0].GetContainerId()
+	if !strings.HasPrefix(id, "u") {
+		return -2
+	}
+	i := strings.IndexByte(id, '-')
+	if i < 0 {
+		return -2
+	}
+	n, err := strconv.Atoi(id[1:i])
+	if err != nil {
+		return -2
+	}
+	return n
+}
+
+func mkErr(e *ErrIn) error {
+	if e == nil {
+		return nil
+	}
+	if e.Plain {
+		return errors.New(e.Msg)
+	}
+	return status.Error(codes.Code(e.Code), e.Msg)
+}
+
+func obsErr(err error) *ErrObs {
+	if err == nil {
+		return nil
+	}
+	if st, ok := status.FromError(err); ok {
+		return &ErrObs{Code: int(st.Code()), Msg: st.Message()}
+	}
+	return &ErrObs{Code: -1, Msg: err.Error()}
+}
+
+func rid(s string) int {
+	n, err := strconv.Atoi(strings.TrimPrefix(s, "r"))
+	if err != nil {
+		return -1
+	}
+	return n
+}
+
+func runUpd(in In, dir string) (obs Obs) {
+	t0 := time.Now()
+	obs.Status = "ok"
+	defer func() {
+		if r := recover(); r != nil {
+			obs.Status, obs.Note = "error", fmt.Sprintf("panic: %v", r)
+		}
+		obs.WallMs = time.Since(t0).Milliseconds()
+	}()
+	if in.Procs > 0 {
+		prev := runtime.GOMAXPROCS(in.Procs)
+		defer runtime.GOMAXPROCS(prev)
+	}
+	byU := map[int]*CallIn{}
+	var emptyScript *CallIn
+	for i := range in.Calls {
+		c := &in.Calls[i]
+		byU[c.U] = c
+		if len(c.List) == 0 && emptyScript == nil {
+			emptyScript = c
+		}
+	}
+	var (
+		logMu    sync.Mutex
+		fnLog    []FnObs
+		hLog     []HObs
+		live     atomic.Bool
+		syncDone atomic.Int64
+	)
+	syncFn := func(ctx context.Context, cb adaptation.SyncCB) error {
+		_, err := cb(ctx, nil, nil)
+		if live.Load() {
+			syncDone.Add(1)
+		}
+		return err
+	}
+	updateFn := func(_ context.Context, us []*api.ContainerUpdate) ([]*api.ContainerUpdate, error) {
+		sIn := rt.Stamp() // Adaptation.updateContainers holds the mutex
+		list := encAll(us)
+		tk := token(us)
+		spin(in.DwellUs)
+		var script *CallIn
+		switch {
+		case tk >= 0:
+			script = byU[tk]
+		case tk == -1:
+			script = emptyScript
+		}
+		var failed []*api.ContainerUpdate
+		var err error
+		if script == nil {
+			tk = -2
+			err = errors.New("verif: UpdateFn received a list no plugin sent")
+		} else {
+			failed, err = decAll(script.Failed)
+			if err == nil {
+				err = mkErr(script.Err)
+			}
+		}
+		sOut := rt.Stamp()
+		logMu.Lock()
+		fnLog = append(fnLog, FnObs{In: sIn, Out: sOut, Token: tk, List: list})
+		logMu.Unlock()
+		return failed, err
+	}
+	r, err := rt.NewRuntime(dir, syncFn, updateFn)
+	if err != nil {
+		obs.Status, obs.Note = "error", "runtime: "+err.Error()
+		return
+	}
+	live.Store(true)
+	defer r.Stop()
+
+	plugs := make([]*rt.Plugin, in.P)
+	for i := 0; i < in.P; i++ {
+		i := i
+		h := func(_ *api.PodSandbox, c *api.Container) {
+			sIn := rt.Stamp()
+			spin(in.HDwellUs)
+			sOut := rt.Stamp()
+			logMu.Lock()
+			hLog = append(hLog, HObs{R: rid(c.GetId()), P: i, In: sIn, Out: sOut})
+			logMu.Unlock()
+		}
+		p, err := rt.NewPlugin(r.Sock, fmt.Sprintf("%02d", (i*7+3)%100), fmt.Sprintf("p%d", i),
+			rt.Hooks{Create: h, Update: h, Stop: h, Start: h, Pod: func(pd *api.PodSandbox) {
+				sIn := rt.Stamp()
+				spin(in.HDwellUs)
+				sOut := rt.Stamp()
+				logMu.Lock()
+				hLog = append(hLog, HObs{R: rid(pd.GetId()), P: i, In: sIn, Out: sOut})
+				logMu.Unlock()
+			}})
+		if err != nil {
+			obs.Status, obs.Note = "error", "plugin: "+err.Error()
+			return
+		}
+		plugs[i] = p
+	}
+	defer func() {
+		for _, p := range plugs {
+			p.Stop()
+		}
+	}()
+
+	// per plugin, per goroutine: the calls in order
+	type key struct{ p, g int }
+	plan := map[key][]*CallIn{}
+	for i := range in.Calls {
+		c := &in.Calls[i]
+		plan[key{c.P, c.G}] = append(plan[key{c.P, c.G}], c)
+	}
+	cobs := make([]CallObs, len(in.Calls))
+	idxOf := map[int]int{}
+	for i, c := range in.Calls {
+		idxOf[c.U] = i
+		cobs[i] = CallObs{U: c.U, Failed: []string{}}
+	}
+	var cmu sync.Mutex
+	var wgU, wgR, wgS sync.WaitGroup
+	startUpdaters := func(p int) {
+		for g := 0; g < in.U; g++ {
+			calls := plan[key{p, g}]
+			if len(calls) == 0 {
+				continue
+			}
+			wgU.Add(1)
+			go func() {
+				defer wgU.Done()
+				for _, c := range calls {
+					list, err := decAll(c.List)
+					if err != nil {
+						continue
+					}
+					s1 := rt.Stamp()
+					cmu.Lock()
+					cobs[idxOf[c.U]].S1 = s1
+					cmu.Unlock()
+					failed, err := plugs[p].Stub.UpdateContainers(list)
+					s2 := rt.Stamp()
+					cmu.Lock()
+					co := &cobs[idxOf[c.U]]
+					co.S2, co.Done, co.Failed, co.Err = s2, true, encAll(failed), obsErr(err)
+					cmu.Unlock()
+				}
+			}()
+		}
+	}
+	startErr := make([]error, in.P)
+	for i := range plugs {
+		i := i
+		wgS.Add(1)
+		go func() {
+			defer wgS.Done()
+			if err := plugs[i].Start(); err != nil {
+				startErr[i] = err
+				return
+			}
+			if in.Early {
+				startUpdaters(i)
+			}
+		}()
+	}
+	wgS.Wait()
+	for i, e := range startErr {
+		if e != nil {
+			obs.Status, obs.Note = "error", fmt.Sprintf("plugin %d Start: %v", i, e)
+			return
+		}
+	}
+	if !in.Early {
+		// every plugin active before anything starts: wait for the synchronisations and
+		// for the last exclusive section to be left
+		t := time.Now()
+		for syncDone.Load() < int64(in.P) && time.Since(t) < 20*time.Second {
+			time.Sleep(200 * time.Microsecond)
+		}
+		b := r.A.BlockPluginSync()
+		b.Unblock()
+		for i := range plugs {
+			startUpdaters(i)
+		}
+	}
+	pod := rt.Pod("pod0")
+	var nextR atomic.Int64
+	for g := 0; g < in.G; g++ {
+		g := g
+		wgR.Add(1)
+		go func() {
+			defer wgR.Done()
+			rnd := rand.New(rand.NewSource(in.Seed*31 + int64(g)))
+			ctx := context.Background()
+			for k := 0; k < in.R; k++ {
+				id := nextR.Add(1) - 1
+				c := rt.Ctr(fmt.Sprintf("r%d", id), "pod0")
+				pd := rt.Pod(fmt.Sprintf("r%d", id))
+				switch rnd.Intn(7) {
+				case 4:
+					r.A.RunPodSandbox(ctx, &api.StateChangeEvent{Pod: pd})
+				case 5:
+					r.A.UpdatePodSandbox(ctx, &api.UpdatePodSandboxRequest{Pod: pd, LinuxResources: &api.LinuxResources{}})
+				case 6:
+					r.A.StopPodSandbox(ctx, &api.StateChangeEvent{Pod: pd})
+				case 0:
+					r.A.CreateContainer(ctx, &api.CreateContainerRequest{Pod: pod, Container: c})
+				case 1:
+					r.A.UpdateContainer(ctx, &api.UpdateContainerRequest{Pod: pod, Container: c, LinuxResources: &api.LinuxResources{}})
+				case 2:
+					r.A.StopContainer(ctx, &api.StopContainerRequest{Pod: pod, Container: c})
+				default:
+					r.A.StartContainer(ctx, &api.StateChangeEvent{Pod: pod, Container: c})
+				}
+			}
+		}()
+	}
+	done := make(chan struct{})
+	go func() { wgU.Wait(); wgR.Wait(); close(done) }()
+	select {
+	case <-done:
+	case <-time.After(30 * time.Second):
+		obs.Status, obs.Note = "blocked", "update calls or requests still pending after 30s"
+	}
+	logMu.Lock()
+	obs.Fn = append([]FnObs{}, fnLog...)
+	obs.H = append([]HObs{}, hLog...)
+	logMu.Unlock()
+	cmu.Lock()
+	obs.Calls = append([]CallObs{}, cobs...)
+	cmu.Unlock()
+	sort.Slice(obs.Fn, func(i, j int) bool { return obs.Fn[i].In < obs.Fn[j].In })
+	sort.Slice(obs.H, func(i, j int) bool { return obs.H[i].In < obs.H[j].In })
+	for i := range obs.Fn {
+		if obs.Fn[i].List == nil {
+			obs.Fn[i].List = []string{}
+		}
+	}
+	return
+}
+
+// runLone: UpdateContainers on a stub that was never started (or was started and stopped),
+// under a deadline.
+func runLone(in In, dir string) (obs Obs) {
+	obs.Status = "ok"
+	defer func() {
+		if r := recover(); r != nil {
+			obs.Status, obs.Note = "error", fmt.Sprintf("panic: %v", r)
+		}
+	}()
+	sock := filepath.Join(dir, "nri.sock")
+	os.MkdirAll(dir, 0o755)
+	var r *rt.Runtime
+	if in.Listen || in.Kind == "stopped" {
+		var err error
+		r, err = rt.NewRuntime(dir,
+			func(ctx context.Context, cb adaptation.SyncCB) error { _, err := cb(ctx, nil, nil); return err },
+			func(context.Context, []*api.ContainerUpdate) ([]*api.ContainerUpdate, error) { return nil, nil })
+		if err != nil {
+			obs.Status, obs.Note = "error", err.Error()
+			return
+		}
+		defer r.Stop()
+	}
+	p, err := rt.NewPlugin(sock, "07", "lone", rt.Hooks{})
+	if err != nil {
+		obs.Status, obs.Note = "error", err.Error()
+		return
+	}
+	if in.Kind == "stopped" {
+		if err := p.Start(); err != nil {
+			obs.Status, obs.Note = "error", err.Error()
+			return
+		}
+		b := r.A.BlockPluginSync()
+		b.Unblock()
+		p.Stop()
+	}
+	var list []*api.ContainerUpdate
+	if len(in.Calls) > 0 {
+		list, _ = decAll(in.Calls[0].List)
+	}
+	type res struct {
+		failed []*api.ContainerUpdate
+		err    error
+	}
+	ch := make(chan res, 1)
+	go func() {
+		f, e := p.Stub.UpdateContainers(list)
+		ch <- res{f, e}
+	}()
+	select {
+	case x := <-ch:
+		switch {
+		case errors.Is(x.err, stub.ErrNoService):
+			obs.Result = "noservice"
+		case x.err != nil:
+			obs.Result = "error"
+			obs.Note = x.err.Error()
+		default:
+			obs.Result = "ok"
+		}
+		if len(x.failed) != 0 {
+			obs.Note += " (non-empty failed list)"
+			obs.Result += "+failed"
+		}
+	case <-time.After(5 * time.Second):
+		obs.Result = "blocked"
+	}
+	return
+}
+
+// ---- generation
+
+func genUpdate(r *rand.Rand, id string) *api.ContainerUpdate {
+	u := &api.ContainerUpdate{ContainerId: id}
+	if r.Intn(4) == 0 {
+		u.IgnoreFailure = true
+	}
+	if r.Intn(6) == 0 {
+		return u
+	}
+	res := &api.LinuxResources{}
+	u.Linux = &api.LinuxContainerUpdate{Resources: res}
+	if r.Intn(2) == 0 {
+		m := &api.LinuxMemory{}
+		if r.Intn(2) == 0 {
+			m.Limit = api.Int64(r.Int63n(1 << 40))
+		}
+		if r.Intn(3) == 0 {
+			m.Reservation = api.Int64(int64(r.Intn(3)) - 1) // -1, 0, 1: zero must survive as "set"
+		}
+		if r.Intn(3) == 0 {
+			m.Swap = api.Int64(r.Int63())
+		}
+		if r.Intn(4) == 0 {
+			m.Swappiness = api.UInt64(uint64(r.Intn(101)))
+		}
+		if r.Intn(4) == 0 {
+			m.DisableOomKiller = api.Bool(r.Intn(2) == 0)
+		}
+		res.Memory = m
+	}
+	if r.Intn(2) == 0 {
+		c := &api.LinuxCPU{}
+		if r.Intn(2) == 0 {
+			c.Shares = api.UInt64(uint64(r.Intn(4096)))
+		}
+		if r.Intn(2) == 0 {
+			c.Quota = api.Int64(int64(r.Intn(200000)) - 1)
+		}
+		if r.Intn(3) == 0 {
+			c.Period = api.UInt64(uint64(r.Intn(100000)))
+		}
+		if r.Intn(3) == 0 {
+			c.Cpus = []string{"0", "0-3", "1,3,5", "", "0-63"}[r.Intn(5)]
+		}
+		if r.Intn(4) == 0 {
+			c.Mems = []string{"0", "0-1"}[r.Intn(2)]
+		}
+		res.Cpu = c
+	}
+	for k := r.Intn(3); k > 0; k-- {
+		res.HugepageLimits = append(res.HugepageLimits, &api.HugepageLimit{
+			PageSize: []string{"2MB", "1GB", "64KB"}[r.Intn(3)], Limit: uint64(r.Intn(1 << 20))})
+	}
+	if r.Intn(4) == 0 {
+		res.BlockioClass = api.String([]string{"", "fast", "slöw"}[r.Intn(3)])
+	}
+	if r.Intn(4) == 0 {
+		res.RdtClass = api.String([]string{"", "gold", "银"}[r.Intn(3)])
+	}
+	if r.Intn(3) == 0 {
+		res.Unified = map[string]string{}
+		for k := 1 + r.Intn(4); k > 0; k-- {
+			res.Unified[[]string{"memory.high", "cpu.weight", "io.max", "pids.max", "a", ""}[r.Intn(6)]] =
+				[]string{"max", "100", "", "8:0 rbps=1048576", "\x00\xff"[0:1]}[r.Intn(5)]
+		}
+	}
+	if r.Intn(5) == 0 {
+		res.Pids = &api.LinuxPids{Limit: int64(r.Intn(3000)) - 1}
+	}
+	return u
+}
+
+var msgs = []string{"boom", "", "update failed: no such container", "ünïcode ✓", "a\nb", "rpc error: code = Unknown desc = nested",
+	"x: %v %s", strings.Repeat("long ", 200)}
+
+func genCalls(r *rand.Rand, in *In, perG int) {
+	u := 0
+	emptyFailed := []string{}
+	var emptyErr *ErrIn
+	if r.Intn(2) == 0 {
+		emptyErr = &ErrIn{Plain: r.Intn(2) == 0, Code: int(codes.NotFound), Msg: "empty list refused"}
+	} else if r.Intn(2) == 0 {
+		emptyFailed = []string{enc(genUpdate(r, "foreign-0"))}
+	}
+	for p := 0; p < in.P; p++ {
+		for g := 0; g < in.U; g++ {
+			for k := 0; k < perG; k++ {
+				c := CallIn{U: u, P: p, G: g, List: []string{}, Failed: []string{}}
+				n := 0
+				switch r.Intn(8) {
+				case 0:
+					n = 0
+				case 1:
+					n = 5 + r.Intn(20)
+				default:
+					n = 1 + r.Intn(4)
+				}
+				var ups []*api.ContainerUpdate
+				for i := 0; i < n; i++ {
+					up := genUpdate(r, fmt.Sprintf("u%d-%d", u, i))
+					ups = append(ups, up)
+					c.List = append(c.List, enc(up))
+				}
+				if n == 0 {
+					c.Failed = emptyFailed
+					c.Err = emptyErr
+				} else {
+					switch r.Intn(6) {
+					case 0: // error (with a failed list that must NOT come through)
+						c.Err = &ErrIn{Plain: true, Msg: msgs[r.Intn(len(msgs))]}
+						if r.Intn(2) == 0 {
+							c.Failed = []string{c.List[0]}
+						}
+					case 1:
+						code := []codes.Code{codes.NotFound, codes.Unknown, codes.Internal, codes.FailedPrecondition,
+							codes.InvalidArgument, codes.Unavailable, codes.Code(77)}[r.Intn(7)]
+						c.Err = &ErrIn{Plain: false, Code: int(code), Msg: msgs[r.Intn(len(msgs))]}
+					case 2: // a subset failed, in a different order
+						for i := len(c.List) - 1; i >= 0; i-- {
+							if r.Intn(2) == 0 {
+								c.Failed = append(c.Failed, c.List[i])
+							}
+						}
+					case 3: // failed list with an update the plugin never sent, and a duplicate
+						c.Failed = append(c.Failed, enc(genUpdate(r, "foreign-1")), c.List[0], c.List[0])
+					case 4: // everything failed
+						c.Failed = append(c.Failed, c.List...)
+					}
+				}
+				in.Calls = append(in.Calls, c)
+				u++
+			}
+		}
+	}
+}
+
+func generate(o *hx.Opts) []In {
+	r := o.Rand(19)
+	n := o.N(150, 8000)
+	procsQuick := []int{2, 4, 8, 16}
+	procsAll := []int{1, 2, 3, 4, 8, 16, 32}
+	var out []In
+	// the lone-stub cases: every list shape, runtime listening or not
+	idx := 0
+	for _, listen := range []bool{false, true} {
+		for _, nl := range []int{0, 1, 3} {
+			in := In{Kind: "unstarted", Idx: idx, Listen: listen, Seed: r.Int63(), Calls: []CallIn{{List: []string{}, Failed: []string{}}}}
+			for i := 0; i < nl; i++ {
+				in.Calls[0].List = append(in.Calls[0].List, enc(genUpdate(r, fmt.Sprintf("u0-%d", i))))
+			}
+			out = append(out, in)
+			idx++
+		}
+	}
+	in := In{Kind: "stopped", Idx: idx, Listen: true, Seed: r.Int63(), Calls: []CallIn{{List: []string{enc(genUpdate(r, "u0-0"))}, Failed: []string{}}}}
+	out = append(out, in)
+	idx++
+	for i := 0; i < n; i++ {
+		in := In{Kind: "upd", Idx: idx, Seed: r.Int63()}
+		idx++
+		in.P = 1 + r.Intn(5)
+		in.U = 1 + r.Intn(3)
+		in.G = r.Intn(5)
+		if i%4 == 0 {
+			in.P, in.G = 4, 4
+		}
+		in.R = 5 + r.Intn(20)
+		if o.Thorough() {
+			in.Procs = procsAll[i%len(procsAll)]
+		} else {
+			in.Procs = procsQuick[i%len(procsQuick)]
+		}
+		in.DwellUs = []int{0, 5, 20, 50, 200}[r.Intn(5)]
+		in.HDwellUs = []int{0, 5, 20, 50}[r.Intn(4)]
+		in.Early = r.Intn(4) == 0
+		per := 3 + r.Intn(8)
+		if i%4 == 0 {
+			per = 20 / in.U
+			if per < 1 {
+				per = 1
+			}
+		}
+		genCalls(r, &in, per)
+		out = append(out, in)
+	}
+	return out
+}
+
+func workers() int {
+	if v := os.Getenv("VERIFH_WORKERS"); v != "" {
+		if n, err := strconv.Atoi(v); err == nil && n >= 1 {
+			return n
+		}
+	}
+	return 4
+}
+
 func Run(o *hx.Opts, w *lineio.Writer) error {
-	return errors.New("C19 harness not implemented")
+	var cases []In
+	if o.Replay != "" {
+		rc, err := hx.ReplayCases(o.Replay)
+		if err != nil {
+			return err
+		}
+		for _, c := range rc {
+			var in In
+			if err := json.Unmarshal(c.In, &in); err != nil {
+				return err
+			}
+			if in.Kind == "worker" {
+				continue
+			}
+			// schedule-dependent: a replayed plan is re-run several times, every run judged
+			reps := 10
+			if in.Kind != "upd" {
+				reps = 1
+			}
+			for k := 0; k < reps; k++ {
+				cases = append(cases, in)
+			}
+		}
+	} else {
+		cases = generate(o)
+	}
+	return rt.Sharded(o, w, "C19", len(cases), workers(), func(i int) interface{} { return cases[i] }, func(i int) *lineio.Case {
+		in := cases[i]
+		dir := filepath.Join(o.Scratch, fmt.Sprintf("r%d", i))
+		var obs Obs
+		switch in.Kind {
+		case "upd":
+			obs = runUpd(in, dir)
+		case "unstarted", "stopped":
+			obs = runLone(in, dir)
+		default:
+			obs = Obs{Status: "error", Note: "unknown kind " + in.Kind}
+		}
+		if obs.Fn == nil {
+			obs.Fn = []FnObs{}
+		}
+		if obs.Calls == nil {
+			obs.Calls = []CallObs{}
+		}
+		if obs.H == nil {
+			obs.H = []HObs{}
+		}
+		os.RemoveAll(dir)
+		return &lineio.Case{ID: fmt.Sprintf("c19-%s-%d#%d", in.Kind, in.Idx, i), In: in, Obs: obs}
+	})
 }
